@@ -22,6 +22,9 @@ def run_history(chk, uni, drv, rng, stats):
     fi = int(sel[1])
     probe = ptera.Probe(sel, env=uni.mod.__dict__)
     api = rng.random() < 0.5        # the explicit activate() / deactivate() of global probes, or the with protocol
+    if rng.random() < 0.5:
+        uni.gen = uni.mod.hgen(10 ** 6)     # a generator that takes its first step before the probe is activated
+        next(uni.gen)
     spec = uni.spec([sel])
     stages = []      # dict(kind, out, delivered(expected), attached_at)
     hist = []
@@ -30,10 +33,13 @@ def run_history(chk, uni, drv, rng, stats):
     done = False
     model_ops = []
 
+    derived = []       # probes derived from the root (a deactivation may be asked through any of them)
+
     def attach():
         kind = rng.choice(KINDS)
         out = []
         src = probe[focus]
+        derived.append(src)
         obs = src if kind == "accum" else getattr(src, kind)()
         obs.subscribe(on_next=out.append, on_error=lambda e: out.append("ERR:" + type(e).__name__),
                       on_completed=lambda: out.append("done"))
@@ -90,7 +96,7 @@ def run_history(chk, uni, drv, rng, stats):
                 e = uni.mod.Oops("x")
                 probe.__exit__(type(e), e, None)
             elif api:
-                probe.deactivate()
+                rng.choice([probe] + derived).deactivate()
             else:
                 probe.__exit__(None, None, None)
             active = False
@@ -99,6 +105,12 @@ def run_history(chk, uni, drv, rng, stats):
                 st["live"] = False
         elif r < 0.5:
             attach()
+        elif r < 0.58:
+            # a suspended instrumented generator (started before this probe existed, perhaps) is advanced
+            if uni.gen is None:
+                uni.gen = uni.mod.hgen(10 ** 6)
+            next(uni.gen)
+            hist.append({"op": "advance a suspended generator"})
         else:
             f, x = rng.randrange(2), rng.randrange(0, 6)
             hist.append({"op": "call", "f": f, "x": x})
